@@ -45,7 +45,7 @@ def lib_census(rel) -> collections.Counter:
 _PROG2LIB = {
     "calc": "Calculation", "proj": "Projection", "sel": "Selection", "dedup": "Deduplication",
     "sort": "Sort", "slice": "Slice", "chain": "Chain", "join": "Join", "mat": "Materialization",
-    "xfer": "Transfer", "leaf": "LeafRelation", "mark": "Tagged", "cap": "RowCap", "rev": "Reverse",
+    "xfer": "Transfer", "leaf": "LeafRelation", "mark": "Tagged", "cap": "RowCap", "rev": "Reverse", "alt": "Alternate",
 }
 
 
